@@ -32,7 +32,7 @@ impl Mini {
         let attempts: Vec<Scenario> = match sc {
             Scenario::A(a) => {
                 let mut v = vec![Scenario::A(a.clone())];
-                for k in 0..6u64 {
+                for k in 0..2u64 {
                     let mut b = a.clone();
                     b.schedule = None;
                     b.sched_seed = a.sched_seed.wrapping_add(0x9E37_79B9 * (k + 1));
